@@ -518,6 +518,8 @@ def translate_stmt(n, where):
         if (cond.get("kind") == "MemberExpr" and cond.get("name") == "server_data" and cond.get("isArrow")
                 and is_simptr(strip(kids(cond)[0])) and len(c) == 2):
             return translate_stmt(c[1], where)
+        if is_fresh_server_data_local(cond) and len(c) == 2:
+            return translate_stmt(c[1], where)
         fail("%s: synchronisation under an unrecognised condition" % where)
     if k == "WhileStmt":
         c = kids(n)
@@ -553,7 +555,39 @@ def translate_stmt(n, where):
     fail("%s: synchronisation inside an unrecognised %s" % (where, k))
 
 
+FRESH_SCOPES = []     # per enclosing block being translated: ids of locals initialised from r->server_data INSIDE that block
+
+
+def is_fresh_server_data_local(e):
+    """a local `struct reb_server_data* x = r->server_data;` declared in a block that encloses the current statement within the region being
+    translated (e.g. once per loop iteration).  A copy taken outside the region (once per call) is stale and is not accepted."""
+    e = strip(e)
+    if e.get("kind") != "DeclRefExpr":
+        return False
+    rid = e.get("referencedDecl", {}).get("id")
+    return any(rid in sc for sc in FRESH_SCOPES)
+
+
+def note_fresh_locals(st, scope):
+    if st.get("kind") != "DeclStmt":
+        return
+    for v in kids(st):
+        if v.get("kind") == "VarDecl" and "struct reb_server_data *" in qt(v) and kids(v):
+            init = strip(kids(v)[-1])
+            if init.get("kind") == "MemberExpr" and init.get("name") == "server_data" and init.get("isArrow") and is_simptr(strip(kids(init)[0])):
+                scope.add(v.get("id"))
+
+
 def translate_block(stmts, where):
+    scope = set()
+    FRESH_SCOPES.append(scope)
+    try:
+        return translate_block_inner(stmts, where, scope)
+    finally:
+        FRESH_SCOPES.pop()
+
+
+def translate_block_inner(stmts, where, scope):
     # gotos: forward jumps to a label of this block over synchronisation-free statements only
     labels = {}
     for i, s in enumerate(stmts):
@@ -575,6 +609,7 @@ def translate_block(stmts, where):
                         fail("%s: goto jumps over synchronisation" % where)
     out = []
     for s in stmts:
+        note_fresh_locals(s, scope)
         out += translate_stmt(s, where)
     return out
 
